@@ -201,7 +201,7 @@ enum Ep {
 }
 
 /// The call thread t performs; returns (ok, own-answer?)
-fn do_call(ep: &Ep, kind: &str, t: u64) -> (bool, bool) {
+fn do_call(ep: &Ep, kind: &str, t: u64, var: u64) -> (bool, bool) {
     // a setting change instead of a call: switches the endpoint's reply-ack behaviour off / on
     if kind == "cfg0" || kind == "cfg1" {
         let on = kind == "cfg1";
@@ -217,14 +217,58 @@ fn do_call(ep: &Ep, kind: &str, t: u64) -> (bool, bool) {
             let mut fe = fe.clone();
             let q = (t - 1) as usize;
             match kind {
-                "reply" => match fe.get_vring_base(q) {
-                    Ok(v) => (true, v == 100 + q as u32),
-                    Err(_) => (false, false),
+                // every operation of a kind takes its turn (`var` comes from the case): a lock that one operation bypasses
+                // is only seen when that operation is the one running beside another caller's transaction
+                "reply" => match (t + var) % 5 {
+                    1 => {
+                        let r = fe.get_queue_num();
+                        (r.is_ok(), r.map(|v| v == 8).unwrap_or(false))
+                    }
+                    2 => {
+                        let r = fe.get_max_mem_slots();
+                        (r.is_ok(), r.map(|v| v == 509).unwrap_or(false))
+                    }
+                    3 => {
+                        let r = fe.get_features();
+                        (r.is_ok(), r.map(|v| v == 1 << 30).unwrap_or(false))
+                    }
+                    4 => {
+                        let r = fe.get_protocol_features();
+                        (r.is_ok(), r.is_ok())
+                    }
+                    _ => match fe.get_vring_base(q) {
+                        Ok(v) => (true, v == 100 + q as u32),
+                        Err(_) => (false, false),
+                    },
                 },
                 _ => {
-                    let r = match t % 3 {
+                    let e = vmm_sys_util::eventfd::EventFd::new(0).unwrap();
+                    let f = memfd("txnreg", 0x1000);
+                    let r = match (t + var) % 11 {
                         1 => fe.set_vring_num(q, 8),
                         2 => fe.set_vring_base(q, 3),
+                        3 => fe.set_owner(),
+                        4 => fe.reset_owner(),
+                        5 => fe.set_features(1 << 30),
+                        6 => fe.set_vring_kick(q, &e),
+                        7 => fe.set_vring_call(q, &e),
+                        8 => fe.set_vring_err(q, &e),
+                        9 => fe.set_mem_table(&[vhost::VhostUserMemoryRegionInfo {
+                            guest_phys_addr: 0x10000 * t,
+                            memory_size: 0x1000,
+                            userspace_addr: 0x7000_0000 + 0x10000 * t,
+                            mmap_offset: 0,
+                            mmap_handle: std::os::unix::io::AsRawFd::as_raw_fd(&f),
+                        }]),
+                        10 => fe.set_vring_addr(q, &vhost::VringConfigData {
+                            queue_max_size: 256,
+                            queue_size: 128,
+                            flags: 0,
+                            desc_table_addr: 0x1000,
+                            used_ring_addr: 0x2000,
+                            avail_ring_addr: 0x3000,
+                            log_addr: None,
+                        }),
                         _ => fe.set_vring_enable(q, true),
                     };
                     (r.is_ok(), r.is_ok())
@@ -237,9 +281,12 @@ fn do_call(ep: &Ep, kind: &str, t: u64) -> (bool, bool) {
             let m = VhostUserSharedMsg {
                 uuid: uuid::Uuid::from_bytes(u),
             };
-            let r = match t % 3 {
+            let f = memfd("txnmap", 0x1000);
+            let r = match (t + var) % 5 {
                 1 => be.shared_object_add(&m),
                 2 => be.shared_object_remove(&m),
+                3 => be.shared_object_lookup(&m, &f),
+                4 => be.shmem_map(&VhostUserMMap { shmid: t as u8, padding: [0; 7], fd_offset: 0, shm_offset: 0x1000, len: 4096, flags: 1 }, &f),
                 _ => be.shmem_unmap(&VhostUserMMap {
                     shmid: t as u8,
                     padding: [0; 7],
@@ -252,7 +299,7 @@ fn do_call(ep: &Ep, kind: &str, t: u64) -> (bool, bool) {
             (r.is_ok(), r.is_ok())
         }
         Ep::Gpu(g) => match kind {
-            "reply" => match t % 3 {
+            "reply" => match (t + var) % 3 {
                 1 => {
                     let r = g.get_protocol_features();
                     (r.is_ok(), r.map(|v| v.value == 7).unwrap_or(false))
@@ -271,11 +318,19 @@ fn do_call(ep: &Ep, kind: &str, t: u64) -> (bool, bool) {
                 (r.is_ok(), r.is_ok())
             }
             _ => {
-                let r = g.set_scanout(&VhostUserGpuScanout {
-                    scanout_id: t as u32,
-                    width: 1,
-                    height: 1,
-                });
+                let pos = VhostUserGpuCursorPos { scanout_id: t as u32, x: 1, y: 2 };
+                let f = memfd("txndmabuf", 0x1000);
+                let dm = VhostUserGpuDMABUFScanout { scanout_id: t as u32, x: 0, y: 0, width: 1, height: 1, fd_width: 1, fd_height: 1, fd_stride: 4, fd_flags: 0, fd_drm_fourcc: 0 };
+                let r = match (t + var) % 8 {
+                    1 => g.cursor_pos(&pos),
+                    2 => g.cursor_pos_hide(&pos),
+                    3 => g.cursor_update(&VhostUserGpuCursorUpdate { pos, hot_x: 0, hot_y: 0 }, &[0u8; 4 * 64 * 64]),
+                    4 => g.update_scanout(&VhostUserGpuUpdate { scanout_id: t as u32, x: 0, y: 0, width: 2, height: 2 }, &[7u8; 16]),
+                    5 => g.set_dmabuf_scanout(&dm, Some(&f)),
+                    6 => g.set_dmabuf_scanout2(&VhostUserGpuDMABUFScanout2 { dmabuf_scanout: dm, modifier: 0 }, Some(&f)),
+                    7 => g.set_protocol_features(&VhostUserU64::new(0)),
+                    _ => g.set_scanout(&VhostUserGpuScanout { scanout_id: t as u32, width: 1, height: 1 }),
+                };
                 (r.is_ok(), r.is_ok())
             }
         },
@@ -298,6 +353,7 @@ pub fn run(cases: &[Value], trace: &mut Trace, _seed: u64) {
         let ep_name = case["ep"].as_str().unwrap();
         let kinds: Vec<String> = case["kinds"].as_array().unwrap().iter().map(|k| k.as_str().unwrap().to_string()).collect();
         let free = case["free"].as_bool().unwrap_or(false);
+        let var = case["var"].as_u64().unwrap_or(0);
         {
             let mut s = ctl.m.lock().unwrap();
             *s = CtlState::default();
@@ -314,7 +370,7 @@ pub fn run(cases: &[Value], trace: &mut Trace, _seed: u64) {
                 let _ = fe.get_features();
                 let _ = fe.set_features(1 << 30);
                 let _ = fe.get_protocol_features();
-                let _ = fe.set_protocol_features(VhostUserProtocolFeatures::REPLY_ACK | VhostUserProtocolFeatures::MQ);
+                let _ = fe.set_protocol_features(VhostUserProtocolFeatures::REPLY_ACK | VhostUserProtocolFeatures::MQ | VhostUserProtocolFeatures::CONFIGURE_MEM_SLOTS);
                 if any_ack {
                     fe.set_hdr_flags(VhostUserHeaderFlag::NEED_REPLY);
                 }
@@ -353,8 +409,8 @@ pub fn run(cases: &[Value], trace: &mut Trace, _seed: u64) {
                     // SAFETY: gettid has no preconditions.
                     KTIDS.lock().unwrap().push(unsafe { libc::gettid() });
                 }
-                for _ in 0..iters {
-                    let r = std::panic::catch_unwind(std::panic::AssertUnwindSafe(|| do_call(&ep2, &kind, t)));
+                for it in 0..iters {
+                    let r = std::panic::catch_unwind(std::panic::AssertUnwindSafe(|| do_call(&ep2, &kind, t, var + it)));
                     let (ok, own) = r.unwrap_or((false, false));
                     if FORCE_HANDOVER.load(std::sync::atomic::Ordering::SeqCst) {
                         set_sched(0, false);
